@@ -3,6 +3,7 @@ package props
 import (
 	"fmt"
 	"os"
+	"strings"
 	"sync"
 	"sync/atomic"
 	"time"
@@ -37,7 +38,8 @@ func partStepThrough(c *check.Ctx, a *acc, victims []string) {
 				continue
 			}
 			for _, sc := range cs {
-				if sc.Skip > 0 && c.Quick() {
+				// (the victim's own sends are few and each carries a different message: all passes)
+				if sc.Skip > 0 && c.Quick() && sc.Site != "websocket.handler.send" && sc.Site != "websocket.responseSender.Send" {
 					h := uint64(c.Seed)*0x9E3779B97F4A7C15 ^ uint64(len(cases)+1)*0xBF58476D1CE4E5B9
 					h ^= h >> 29
 					if h%3 != 0 {
@@ -45,6 +47,11 @@ func partStepThrough(c *check.Ctx, a *acc, victims []string) {
 					}
 				}
 				cases = append(cases, sc)
+				if (v == "join" || v == "switch") && (sc.Site == "websocket.handler.send" || sc.Site == "websocket.responseSender.Send") {
+					// a message built from shared state and parked before it is marshalled: what
+					// a concurrent writer does to it depends on map iteration order - four runs
+					cases = append(cases, sc, sc, sc)
+				}
 				// fault at that point: the victim's client resets its connection while the
 				// server is parked there (first pass of each point; a third of them in the quick tier)
 				if sc.Skip == 0 && v != "leave" && v != "lastleave" {
@@ -60,6 +67,18 @@ func partStepThrough(c *check.Ctx, a *acc, victims []string) {
 			learned[v] = len(cs)
 		}
 		p.Kill()
+	}
+	if only := os.Getenv("VERIF_STEP_ONLY"); only != "" {
+		// debugging aid: only the cases whose description contains the string, ten times each
+		var keep []e2.StepCase
+		for _, sc := range cases {
+			if strings.Contains(sc.String(), only) {
+				for k := 0; k < 10; k++ {
+					keep = append(keep, sc)
+				}
+			}
+		}
+		cases = keep
 	}
 	var mu sync.Mutex
 	var failed atomic.Int32
@@ -91,6 +110,9 @@ func partStepThrough(c *check.Ctx, a *acc, victims []string) {
 			res := e2.StepRun(p, cases[i])
 			if os.Getenv("VERIF_STEP_DEBUG") != "" {
 				fmt.Printf("STEP %s reached=%v overlapped=%v findings=%d inconclusive=%q\n", cases[i], res.GateReached, res.Overlapped, len(res.Findings), res.Inconclusive)
+				for _, f := range res.Findings {
+					fmt.Printf("STEPFINDING %v %s %.600s\n", f.Props, f.Clause, f.Detail)
+				}
 			}
 			mu.Lock()
 			runs++
